@@ -204,6 +204,17 @@ class Monitor:
             ctx.count("outside_judged_domain_skipped")
             return None
         df, call = T.build_frame(table)
+        # documented reader option: individuals (and visits) sorted by identifier instead of kept in order of first appearance
+        ids0 = list(canon["ids"])
+        if table["layout"] != "event" and len({type(x_) for x_ in ids0}) == 1 and not canon["order_ambiguous"] and (len(ids0) + len(case.get("label", "")) + int(case.get("index", 0))) % 5 == 0:
+            call["kws"]["sort_index"] = True
+            canon = dict(canon, ids=sorted(ids0))
+            for k_ in list(canon):
+                v_ = canon[k_]
+                if k_ != "ids" and isinstance(v_, list) and len(v_) == len(ids0) and k_ != "order_ambiguous":
+                    order_ = [ids0.index(x_) for x_ in canon["ids"]]
+                    canon[k_] = [v_[o_] for o_ in order_]
+            ctx.count("valid_tables_read_with_sort_index")
         snap = df.copy(deep=True)
         ctx.evaluated()
         try:
